@@ -194,6 +194,11 @@ where
     {
         self.circuit_bootstrapping_key_encrypt_sk_tmp_bytes(&infos.cbt_infos())
             .max(self.glwe_to_lwe_key_encrypt_sk_tmp_bytes(&infos.ks_lwe_infos()))
+            .max(
+                infos
+                    .ks_glwe_infos()
+                    .map_or(0, |ks_glwe| self.glwe_switching_key_encrypt_sk_tmp_bytes(&ks_glwe)),
+            )
     }
 
     #[allow(clippy::too_many_arguments)]
